@@ -283,6 +283,9 @@ impl Driver {
             if let Some(js) = crate::checks::js_records(core) {
                 ev["js"] = js;
             }
+            if crate::core::CFG.with(|c| c.borrow().dir.as_os_str().len() > 0) {
+                ev["img"] = core.image_digest();
+            }
             let nops = (core.disk.ops() - o0) as usize;
             self.rec.count("calls", 1);
             self.rec.count("storage_ops", nops as u64);
